@@ -55,7 +55,7 @@ var terminatingOps = map[string]bool{"exit": true, "parentexit": true, "kill": t
 
 func genTCase(r *simkit.Rand, tier string, causes bool) *TCase {
 	c := &TCase{}
-	c.Kind = simkit.Pick(r, "actor", "actor", "actor", "sup", "pool", "meta", "meta")
+	c.Kind = simkit.Pick(r, "actor", "actor", "actor", "sup", "pool", "meta", "meta", "raw")
 	c.Trap = r.Chance(0.4)
 	c.Logger = c.Kind == "actor" && r.Chance(0.25)
 	c.SelfSend = simkit.Pick(r, 0, 0, 1, 2)
@@ -360,6 +360,31 @@ func (t *tRun) spawnTarget() bool {
 			th.Terminate = func(p *Probe, reason error) { t.onTerminate(reason) }
 		}
 		factory = ProbeFactory(th)
+	case "raw":
+		// a behaviour written directly against gen.ProcessBehavior (no act.Actor in between)
+		factory = func() gen.ProcessBehavior {
+			return &ProbeRaw{H: th, i: th.newInst(),
+				OnInit: func(p gen.Process) error { initSelf(p); return nil },
+				OnMessage: func(p gen.Process, from gen.PID, m any) error {
+					if s, ok := m.(string); ok && s == "setup" {
+						a, err := p.CreateAlias()
+						if err != nil {
+							t.unexpected("CreateAlias inside a running callback of the target: " + err.Error())
+						}
+						t.alias = a
+						return nil
+					}
+					return t.handle(p, m)
+				},
+				OnCall: func(p gen.Process, from gen.PID, ref gen.Ref, req any) (any, error) {
+					if err := t.handle(p, req); err != nil {
+						return nil, err
+					}
+					return "ok", nil
+				},
+				OnTerminate: func(p gen.Process, reason error) { t.onTerminate(reason) },
+			}
+		}
 	case "sup":
 		ch := t.newHooks("child")
 		th.SupInit = func(p *ProbeSup, args ...any) (act.SupervisorSpec, error) {
